@@ -129,6 +129,9 @@ impl Scenario for SigSc {
     fn name(&self) -> &'static str {
         "sig"
     }
+    fn allocator_reports_are_verdicts(&self) -> bool {
+        true
+    }
     fn generate(&self, rng: &mut Rng, tier: Tier, _t: &str) -> SigPlan {
         let ty = *rng.pick(&[SigTy::U8, SigTy::U16, SigTy::U32, SigTy::U64, SigTy::I16, SigTy::I32, SigTy::Str, SigTy::VecU8, SigTy::VecU16, SigTy::VecU16, SigTy::VecU32, SigTy::VecU32]);
         let maxlen = if tier == Tier::Thorough && rng.chance(0.02) { 1_000_000 } else { 2000 };
@@ -209,7 +212,28 @@ impl Scenario for SigSc {
         }
         if let Some((k, m, ids)) = &plan.sha {
             ctx.ev("sha-sketch", ids.len() as u64);
+            // a sketcher over another key type, fed keys that print alike, runs first in this thread; the reference
+            // signature is computed in a fresh thread that has no history at all
+            let other = match k {
+                ShaKey::U64 => ShaKey::U32,
+                ShaKey::U32 => ShaKey::U64,
+                ShaKey::VecU8 => ShaKey::VecU16,
+                ShaKey::VecU16 => ShaKey::VecU32,
+                ShaKey::VecU32 => ShaKey::VecU8,
+                ShaKey::Str => ShaKey::U64,
+            };
+            let _ = caught(|| sha_dispatch(other, *m, ids, false));
+            ctx.count("fault:other-key-type-sketched-first-in-this-thread");
             let s1 = sha_dispatch(*k, *m, ids, false);
+            let (kk, mm) = (*k, *m);
+            crate::alloc_track::pause();
+            let fresh = std::thread::scope(|sc| sc.spawn(move || caught(|| sha_dispatch(kk, mm, ids, false))).join());
+            crate::alloc_track::resume();
+            if let Ok(Ok(sref)) = fresh {
+                ctx.check("C18", "sha-signature-independent-of-thread-history", s1 == sref, || {
+                    format!("{:?} keys: the signature computed after a {:?} sketcher ran in this thread differs from the one computed in a fresh thread", k, other)
+                })?;
+            }
             let s2 = sha_dispatch(*k, *m, ids, false);
             ctx.check("C18", "sha-signature-stable", s1 == s2, || format!("two ProbMinHash3aSha runs over the same {:?} keys differ", k))?;
             // the bytes that reach Sha for a key must be that key's bytes only: entries of weight 0 in between
